@@ -31,11 +31,11 @@ func (i ParticipationFlags) Serialize(w *codec.EncodingWriter) error {
 }
 
 func (ParticipationFlags) ByteLength() uint64 {
-	return 8
+	return 1
 }
 
 func (ParticipationFlags) FixedLength() uint64 {
-	return 8
+	return 1
 }
 
 func (t ParticipationFlags) HashTreeRoot(hFn tree.HashFn) common.Root {
